@@ -10,6 +10,7 @@ from __future__ import annotations
 import asyncio
 import os
 import shutil
+import sqlite3
 import tempfile
 
 from hypothesis import strategies as st
@@ -59,7 +60,7 @@ class C37(Prop):
         "one CLI process at a time: no two operations interleave on the same config directory; `restart` models a new process (fresh ConfigManager, migrations re-run)",
         "'picked while that environment was current' is read as 'since that environment last became current' - the reading under which the repository's own clear-on-switch mechanism is the thing being checked; under the weaker reading 'at any earlier time' the separate violation kind active_profile_never_picked_in_env applies",
     ]
-    budgets = {"quick": 1200, "thorough": 1500}
+    budgets = {"quick": 1500, "thorough": 1500}
     wall = {"quick": 55.0, "thorough": 420.0}
 
     # ------------------------------------------------------------------ setup
@@ -75,6 +76,7 @@ class C37(Prop):
         self.DEFAULT = schema.DEFAULT_ENVIRONMENT.api_url
         self.URLS = [self.DEFAULT] + _EXTRA_URLS
         self.NAMES = ["default"] + [auth_service._auto_profile_name_from_token(k) for k in _KEYS[1:]] + ["ann@x.io", "bob@x.io"]
+        self.RENAMES = self.NAMES + ["renamed-1"]  # new names for `rename`: the recurring names and one that nothing else produces
         self.tmpbase = "/dev/shm" if os.path.isdir("/dev/shm") and os.access("/dev/shm", os.W_OK) else None
 
     # ------------------------------------------------------------------ generator
@@ -88,6 +90,14 @@ class C37(Prop):
         sel_idx = st.tuples(st.just("idx"), st.integers(0, 5))
         sel = st.one_of(sel_idx, sel_idx, sel_idx, st.tuples(st.just("name"), st.integers(0, 4)))
         token = st.tuples(st.just("token"), st.sampled_from([0, 0, 0, 1, 1, 2]), st.sampled_from([0, 0, 0, 1, 1, 2]))
+        # rename: which environment's profile (0 = the current one, 1..3 = an entry of the real listing of the OTHER environments),
+        # index into that environment's real profile listing, index of the new name (the recurring derived names + a fresh one)
+        # (4 = the profile there that is named like the profile active here - the "same name in different environments" shape),
+        # new name (0..5: the recurring derived names + a fresh one; 6..8: a name in use in the current environment's real listing;
+        # 9: the name the active-profile setting holds)
+        rename = st.tuples(
+            st.just("rename"), st.sampled_from([0, 1, 1, 2, 3]), st.sampled_from([0, 1, 2, 3, 4, 4]), st.sampled_from([0, 1, 1, 2, 3, 4, 5, 5, 6, 7, 8, 9])
+        )
         env_op = st.one_of(
             st.tuples(st.just("add_env"), url3, st.booleans()),
             st.tuples(st.just("switch"), url4, i3),
@@ -106,6 +116,8 @@ class C37(Prop):
             st.tuples(st.just("rekey"), st.integers(0, 9)),
             st.tuples(st.just("refresh"), st.integers(0, 9)),
             st.just(("restart",)),
+            rename,
+            rename,
         )
         # free sequences: any operation anywhere
         free = st.lists(st.one_of(env_op, profile_op, profile_op), min_size=3, max_size=24)
@@ -130,7 +142,7 @@ class C37(Prop):
             ]
         )
         select = sel.map(lambda s: ("select",) + s)
-        churn = st.lists(st.one_of(env_op, env_op, env_op, select, select, token, profile_op), min_size=2, max_size=14)
+        churn = st.lists(st.one_of(env_op, env_op, env_op, select, select, token, profile_op, rename), min_size=2, max_size=14)
         populated = st.tuples(populate, churn).map(lambda t: t[0] + t[1])
         # fallback sequences aim at the "reset environment on delete" mechanism: profiles in the default environment, the same (or
         # another) key in an added environment, then that environment is deleted while current, then churn
@@ -145,7 +157,25 @@ class C37(Prop):
         relogin = st.tuples(st.lists(oidc, min_size=1, max_size=3), noise, away, noise, st.tuples(st.just("switch"), st.just(0), i3), noise, oidc, churn).map(
             lambda t: t[0] + t[1] + [t[2]] + t[3] + [t[4]] + t[5] + [t[6]] + t[7]
         )
-        return st.one_of(free, blocks, populated, populated, fallback, relogin).map(lambda ops: [list(o) for o in ops])
+        # renaming sequences aim at profile updates that change the name: two or three environments, each given profiles for its own
+        # non-empty subset of the keys (so a name is held by several environments but not by all), come back to one of them, pick
+        # there, then rename profiles (of this or of another environment) among the names in use, then churn
+        subset = st.lists(st.sampled_from([0, 1, 2]), min_size=1, max_size=3, unique=True)
+        populate_uneven = st.tuples(st.permutations([0, 1, 2]), st.lists(st.tuples(st.booleans(), subset), min_size=2, max_size=3)).map(
+            lambda t: [o for e, (auth, ks) in zip(t[0], t[1]) for o in [("add_env", e, auth)] + [("token", k, 0) for k in ks]]
+        )
+        back = st.tuples(st.just("switch"), st.sampled_from([0, 1, 2, 5, 6, 7]), st.sampled_from([0, 0, 1]))
+        rename_in_use = st.tuples(
+            st.just("rename"), st.sampled_from([0, 1, 1, 2, 2, 3]), st.sampled_from([0, 1, 2, 4, 4, 4]), st.sampled_from([1, 5, 6, 6, 6, 7, 7, 8, 9])
+        )
+        renaming = st.tuples(
+            populate_uneven,
+            back,
+            st.lists(st.one_of(select, select, token), min_size=1, max_size=2),
+            st.lists(st.one_of(rename_in_use, rename_in_use, rename_in_use, rename, select), min_size=2, max_size=6),
+            churn,
+        ).map(lambda t: (t[0] + [t[1]] + t[2] + t[3] + t[4])[:30])
+        return st.one_of(free, blocks, populated, populated, fallback, relogin, renaming, renaming, renaming).map(lambda ops: [list(o) for o in ops])
 
     # ------------------------------------------------------------------ one case
 
@@ -199,6 +229,7 @@ class C37(Prop):
         was_unknown = False
         labels = r.classes
         nontrivial = False
+        rename_shape = False
 
         def observe():
             a = svc.current_auth_service()
@@ -224,6 +255,7 @@ class C37(Prop):
             kind = op[0]
             picks = []  # (env url the pick was made in, profile id)
             deleted_env = None
+            updated_other_env = False  # the operation only updated a profile row of an environment that is not current
             try:
                 if kind == "add_env":
                     url = self.URLS[op[1]]  # add: fixed urls only (0..2)
@@ -305,6 +337,54 @@ class C37(Prop):
                     if p is not None:
                         p.api_key = "rekeyed-%d" % op[1]
                         a.update_profile(p)
+                elif kind == "rename":
+                    cur_env = svc.get_current_environment()
+                    if op[1] == 0:
+                        env = cur_env
+                    else:  # a profile of an environment that is not current (e.g. refreshed/edited by a command given that environment)
+                        others = [e for e in svc.list_environments() if e.api_url != cur_env.api_url]
+                        others = [e for e in others if svc.config_manager().list_profiles(e.api_url)] or others
+                        env = others[(op[1] - 1) % len(others)] if others else None
+                    ps = self.authmod.AuthService(svc.config_manager(), env).list_profiles() if env is not None else []
+                    if not ps:
+                        labels.append("rename_nothing_listed")
+                    else:
+                        a = self.authmod.AuthService(svc.config_manager(), env)
+                        target = ps[op[2] % len(ps)]
+                        if op[2] == 4 and prev_active is not None:
+                            target = a.get_profile(prev_active.name) or target
+                        here = svc.current_auth_service().list_profiles()
+                        pointer = svc.config_manager().get_settings_current_profile_name()
+                        if op[3] <= 5:
+                            new_name = self.RENAMES[op[3]]
+                        elif op[3] <= 8:  # a name in use here, preferably one the update can succeed with (free in the target's environment)
+                            taken = {q.name for q in ps}
+                            cand = [q.name for q in here if q.name not in taken] or [q.name for q in here]
+                            new_name = cand[(op[3] - 6) % len(cand)] if cand else self.RENAMES[5]
+                        else:
+                            new_name = pointer or self.RENAMES[5]
+                        old_name = target.name
+                        other = env.api_url != cur_env.api_url
+                        where = "other_env" if other else "current_env"
+                        if new_name == old_name:
+                            labels.append("rename_same_name")
+                        elif a.get_profile(new_name) is not None:
+                            labels.append("rename_name_taken:" + where)
+                        else:
+                            labels.append("rename:" + where)
+                            if other and prev_active is not None and prev_active.name == old_name:
+                                labels.append("rename_other_env_old_name_active_here")
+                                if svc.current_auth_service().get_profile(new_name) is not None:
+                                    rename_shape = True
+                                    labels.append("rename_other_env_old_name_active_here_new_name_listed_here")
+                            if not other and prev_active is not None and prev_active.id == target.id:
+                                labels.append("rename_active_profile")
+                        target.name = new_name
+                        updated_other_env = other
+                        try:
+                            a.update_profile(target)
+                        except sqlite3.IntegrityError:  # (name, api_url) is the primary key: the update is refused as a whole
+                            labels.append("rename_rejected")
                 elif kind == "refresh":
                     a = svc.current_auth_service()
                     p = a.get_current_profile()
@@ -369,9 +449,22 @@ class C37(Prop):
                 if vk is not None and key not in reported:
                     reported.add(key)
                     r.v(vk, **attrs)
+            # (3) an update of another environment's profile is not a pick here: the active profile stays the one it was
+            if updated_other_env and cur == prev_env:
+                before = prev_active.id if prev_active is not None else None
+                after = active.id if active is not None else None
+                if before != after and ("changed_by_other_env_update", kind) not in reported:
+                    reported.add(("changed_by_other_env_update", kind))
+                    r.v(
+                        "active_profile_changed_by_update_in_other_environment",
+                        after_op=kind,
+                        was_active=(before is not None),
+                        now_active=(after is not None),
+                        now_active_picked_since_env_became_current=(after in picked),
+                    )
             prev_env, prev_active = cur, active
 
-        r.nontrivial = nontrivial
+        r.nontrivial = nontrivial or rename_shape
 
 
 PROP = C37
